@@ -90,7 +90,7 @@ macro_rules! into_ok_partial {
 
 /// Return an error for a complete parser upon an invalid digit.
 macro_rules! invalid_digit_complete {
-    ($value:expr, $index:expr, $count:expr) => {
+    ($value:expr, $index:expr, $count:expr, $start:expr) => {
         // Don't do any overflow checking here: we don't need it.
         into_error!(InvalidDigit, $index - 1)
     };
@@ -99,10 +99,15 @@ macro_rules! invalid_digit_complete {
 /// Return a value for a partial parser upon an invalid digit.
 /// This checks for numeric overflow, and returns the appropriate error.
 macro_rules! invalid_digit_partial {
-    ($value:expr, $index:expr, $count:expr) => {
+    ($value:expr, $index:expr, $count:expr, $start:expr) => {{
+        // NOTE: A consumed sign (or base prefix) must be followed by a digit,
+        // exactly as when the input ends there: `+x` is as empty as `+`.
+        if required_digits!() && $start != 0 && $index - 1 == $start {
+            into_error!(Empty, $start);
+        }
         // NOTE: The value is already positive/negative
         into_ok_partial!($value, $index - 1, $count)
-    };
+    }};
 }
 
 /// Return an error, returning the index and the error.
@@ -152,11 +157,11 @@ macro_rules! fmt_invalid_digit {
 
                 // NOTE: Don't step over the next byte to do so: it has not
                 // been looked at, and may be a digit separator.
-                $invalid_digit!($value, $iter.cursor() + 1, $iter.current_count())
+                $invalid_digit!($value, $iter.cursor() + 1, $iter.current_count(), $start_index)
             }
         }
         // Might have handled our base-prefix here.
-        $invalid_digit!($value, $iter.cursor(), $iter.current_count())
+        $invalid_digit!($value, $iter.cursor(), $iter.current_count(), $start_index)
     }};
 }
 
@@ -166,7 +171,7 @@ macro_rules! fmt_invalid_digit {
     (
         $value:ident, $iter:ident, $c:expr, $start_index:ident, $invalid_digit:ident, $is_end:expr
     ) => {{
-        $invalid_digit!($value, $iter.cursor(), $iter.current_count());
+        $invalid_digit!($value, $iter.cursor(), $iter.current_count(), $start_index);
     }};
 }
 
